@@ -4,7 +4,7 @@ import math
 
 import numpy as np
 
-from ..core import fb, fbs, unfb, close, allclose, fingerprint
+from ..core import fb, fbs, unfb, close, allclose, fingerprint, safe_oracle
 from .. import hopcommon as hc
 from ..synth import SynthModel
 
@@ -12,6 +12,7 @@ from ..synth import SynthModel
 # ------------------------------------------------------------------------------------------------
 # oracles on the implementation
 # ------------------------------------------------------------------------------------------------
+@safe_oracle
 def oracle_hop_energy(args):
     """KE + V is unchanged (1e-10 relative) by an accepted hop; a rejected hop is a no-op"""
     c = dict(args["case"])
@@ -86,6 +87,7 @@ def _run_spec(spec):
     return _patched_run(factory)
 
 
+@safe_oracle
 def oracle_run_hops(args):
     """every accepted hop of a real run conserves KE+V (1e-10 relative); every rejected one is a no-op"""
     traces, recs = _run_spec(args)
@@ -106,6 +108,7 @@ def oracle_run_hops(args):
         {"worst_rel_max": 1e-10}, "hop inside a %s run does not conserve energy" % args["cls"]
 
 
+@safe_oracle
 def oracle_drift(args):
     """hop-free runs at dt, dt/2, dt/4 over the same time: energy drift shrinks ~4x per halving"""
     drifts = []
@@ -176,6 +179,11 @@ def run(ctx):
     for i, (c, o) in enumerate(zip(cases, outs)):
         cls = hc.CLASSES[i % 4]
         m = hc.parse_model(c, o)
+        ok, obs, req, text = oracle_hop_energy({"case": c, "cls": cls})
+        if "exception" in obs:
+            ctx.case(None)
+            ctx.oracle_fail("hop-energy:" + cls, "hop_energy", {"case": c, "cls": cls}, obs, req, text)
+            continue
         r = hc.impl_hop(c, cls)
         nontriv = c["n"] >= 2 or abs(c["delta"]) < 1e-3
         key = (cls, c["n"], c["N"], r["accepted"], c["kind"],
@@ -201,7 +209,6 @@ def run(ctx):
         if m["accepted"]:
             res = abs(m["a"] * m["s"] ** 2 + m["b"] * m["s"] + m["c"])
             ctx.monitor("max_quadratic_residual_rel", res / max(abs(m["c"]), abs(m["b"] * m["s"]), 1e-300))
-        ok, obs, req, text = oracle_hop_energy({"case": c, "cls": cls})
         if not ok:
             ctx.oracle_fail("hop-energy:" + cls, "hop_energy", {"case": c, "cls": cls}, obs, req, text)
 
